@@ -201,4 +201,41 @@ theorem context_paths_agree (xs : List (Name × SVal)) (hn : (xs.map (·.1)).Nod
   rw [← h, ctxFromSerialize, ser]
   cases serFields xs [] <;> simp [ctxOfEntries]
 
+/-! ## the typed readers of args.rs -/
+
+/-- Reading a converted number back through `T::try_from(value)` / `ArgFromValue` /
+`Kwargs::get::<T>` returns the original: every integer of every width, every f32 (±inf, NaN,
+±0.0, subnormals, MAX included — a non-finite input is never "out of range"), every f64, bool. -/
+theorem arg_readers_roundtrip (fc : FloatCasts) :
+    (∀ t n, IntTy.inRange t n → argInt t (serInt t n) = .ok (.int t n)) ∧
+    (∀ x, fc.f64to32 x = x → argF32 fc (.f64 x) = .ok (.f32 x)) ∧
+    (∀ x, argF64 (.f64 x) = .ok (.f64 x)) ∧
+    (∀ b, argBool (.bool b) = .ok (.bool b)) := by
+  refine ⟨?_, ?_, fun x => by simp [argF64, Value.intVal], fun b => by simp [argBool]⟩
+  · intro t n h
+    have h0 := h.1
+    cases t <;> simp only [serInt, argInt, Value.intVal, IntTy.min] at h0 ⊢
+    all_goals first
+      | (rw [Int.toNat_of_nonneg h0]; simp [h])
+      | simp [h]
+  · intro x hx
+    simp only [argF32, Value.intVal, hx]
+    cases hf : x.isFinite <;> simp
+
+/-- `insert` / `insert_value` replace: whatever the context held before (the same key included),
+after `insert(k, &x)` the key is bound to the conversion of `x` — the last write wins on both paths,
+so histories of writes under one key stay interchangeable at every step. -/
+theorem context_last_write_wins (k : List Char) (x : SVal) (v : Value) (c : Ctx) (h : ser x = .ok v) :
+    (ctxInsertSer k x c).bind (fun c' => ctxGet k c') = some v ∧ ctxGet k (ctxInsert k v c) = some v := by
+  have hg : ∀ c : Ctx, ctxGet k (ctxInsert k v c) = some v := by
+    intro c
+    induction c with
+    | nil => simp [ctxInsert, ctxGet]
+    | cons e rest ih =>
+      obtain ⟨k', v'⟩ := e
+      by_cases hk : k' = k
+      · simp [ctxInsert, ctxGet, hk]
+      · simp [ctxInsert, ctxGet, hk, ih]
+  exact ⟨by simp [ctxInsertSer, h, hg], hg c⟩
+
 end Tera.Props.C19
